@@ -8,11 +8,15 @@ TEXT = {}
 TEXT["C16"] = dict(
     text="Theorems (Coq kernel, no axioms) over a struct-level model of ast.Compare/Equal/Sort that covers exotic structs: reflexive, "
          "zero iff DeepEqual, antisymmetric, transitive, total, Less is a strict weak order, two sorted permutations of one multiset are "
-         "identical (canonical form). The model is tied to sexpr/ast on every run by differential execution on generated pairs/triples/slices "
+         "identical (canonical form). The four Compare methods are RE-TRANSLATED from sexpr/ast/compare.go on every run (harness/cmd/gencompare -> "
+         "coq/gen/CompareGen.v: the nil preamble and the chain of component comparisons in the order the code tries them; the helper functions are "
+         "checked against their expected shape) and the theorems are re-proved over what the code says now, for any order of the components - a "
+         "dropped field breaks `compare = 0 -> equal`, a foreign statement stops the translator. The struct types, strings.Compare and the scalar "
+         "comparisons are hand-modelled; the whole is also tied to sexpr/ast by differential execution on generated pairs/triples/slices "
          "and direct order-law oracles on all sub-expression triples.",
-    note="trusted: Coq kernel + vm_compute; sort.Sort (its output is checked to be a sorted permutation); float64 represented by an "
-         "order-isomorphic integer key (NaN excluded); the hand model is tied by sampling, not proof",
-    technique="Coq proof (induction over the mutual SExpr/Pair structure, lawful three-way comparisons) + differential correspondence",
+    note="trusted: Coq kernel + vm_compute; the translator gencompare; sort.Sort (its output is checked to be a sorted permutation); float64 represented by an "
+         "order-isomorphic integer key (NaN excluded); struct types and scalar comparisons tied by sampling, not proof",
+    technique="translation of compare.go to Coq on every run + Coq proof (lawful three-way comparisons, lexicographic products, induction over the mutual SExpr/Pair structure) + differential correspondence",
 )
 
 TEXT["C01"] = dict(
